@@ -207,7 +207,9 @@ func canonLarge(out *cq.Out, rng *cq.Rng, seed uint64, tier string) {
 			okv, _ = wireVerify(o.proof, nil, events[ei], last.HistoryDigest, last.HyperDigest)
 		}
 		if okv != 0 {
-			out.Violate("C08:proof-after-reopen", fmt.Sprintf("after close/reopen of a %d-event log the proof for event %d does not verify against the snapshot issued before (class %d verdict %d)", len(events), ei, o.class, okv), desc)
+			for _, id := range []string{"C08", "C01"} { // a restart that is visible (C08); an added event without a verifying proof (C01)
+				out.Violate(id+":proof-after-reopen", fmt.Sprintf("after close/reopen of a %d-event log the proof for event %d does not verify against the snapshot issued before (class %d verdict %d)", len(events), ei, o.class, okv), desc)
+			}
 			break
 		}
 		out.Case(fmt.Sprintf("large:proof:%d", t), true)
@@ -251,4 +253,9 @@ func canonLarge(out *cq.Out, rng *cq.Rng, seed uint64, tier string) {
 	out.Count("large_log_events", n)
 	a.close()
 	b.close()
+}
+
+// canonLargeCmd: only the large-log restart scenario (used by checks that do not need the grouping plans).
+func canonLargeCmd(out *cq.Out, seed uint64, tier string) {
+	canonLarge(out, cq.NewRng(seed), seed, tier)
 }
